@@ -1050,6 +1050,10 @@ def eval_op_case(case):
                 raise AssertionError('out= given but a different object returned')
             return y.asarray()
         guard('mesh+out', with_out)
+        # round 5: `inverse` / `adjoint` of the opposite operator are resampling domain -> range again
+        if all(n >= 2 for n in case['ran']['shape']) or set(sch) == {'n'}:
+            guard('mesh+inverse', lambda: odl.Resampling(ran, dom, interp).inverse(x).asarray())
+            guard('mesh+adjoint', lambda: odl.Resampling(ran, dom, interp).adjoint(x).asarray())
     else:
         try:
             pts = dom.points()
@@ -1077,6 +1081,19 @@ def eval_op_case(case):
         from odl.deform import LinDeformFixedTempl, LinDeformFixedDisp
         guard('array+fixedtempl', lambda: LinDeformFixedTempl(x, interp=interp)(field).asarray())
         guard('array+fixeddisp', lambda: LinDeformFixedDisp(field, interp=interp)(x).asarray())
+        # round 5: construction options and `inverse` of the operator front ends
+        guard('array+dispinverse', lambda: LinDeformFixedDisp(-field_c, interp=interp).inverse(x).asarray())
+        guard('array+templspace', lambda: LinDeformFixedDisp(field, templ_space=dom, interp=interp)(x).asarray())
+        guard('array+domain', lambda: LinDeformFixedTempl(
+            x, domain=dom.real_space.tangent_bundle, interp=interp)(field).asarray())
+
+        def templ_out():
+            y = dom.element(np.full(dom.shape, np.nan, dtype=dom.dtype))
+            r = LinDeformFixedTempl(x, interp=interp)(field, out=y)
+            if r is not y:
+                raise AssertionError('out= given but a different object returned')
+            return y.asarray()
+        guard('array+fixedtempl+out', templ_out)
         if (case.get('xlayout', 'C'), case.get('dlayout', 'C')) != ('C', 'C'):
             guard('array~C', lambda: linear_deform(x_c, field_c, interp))
     return res
@@ -1982,7 +1999,8 @@ def run_vector_valued(ctx):
             # one function returning a tuple of components (broadcasting, a constant)
             return (f0(x), float(const), f2(x))
         allpts = np.array([[float(t) for t in pt] for pt in pts]).T.reshape(d, len(pts))
-        for conv in ('mesh', 'mesh+out', 'tuple-mesh', 'tuple-array', 'tuple-point', 'point'):
+        for conv in ('mesh', 'mesh+out', 'tuple-mesh', 'tuple-array', 'tuple-point', 'point',
+                     'tuple-mesh+out', 'tuple-array+out'):
             key = 'sampling vector-valued {} d={} :: input={}'.format(
                 'function returning a tuple' if conv.startswith('tuple') else 'array of callables', d, conv)
             rc = dict(kind='vector', d=d, conv=conv)
@@ -2003,6 +2021,14 @@ def run_vector_valued(ctx):
                             raise AssertionError('single point gave shape {}'.format(np.shape(v)))
                         cols.append(np.asarray(v, dtype=float))
                     r = np.array(cols).T
+                elif conv == 'tuple-mesh+out':
+                    # out-of-place-only callable returning a ragged tuple, `out` given: _default_ip
+                    # has to broadcast the nested result
+                    r = np.full((3,) + space.shape, np.nan)
+                    sf(space.meshgrid, out=r)
+                elif conv == 'tuple-array+out':
+                    r = np.full((3, len(pts)), np.nan)
+                    sf(allpts, out=r)
                 else:
                     r = np.full((3,) + space.shape, np.nan)
                     point_collocation(sf, space.meshgrid, out=r)
@@ -2616,6 +2642,288 @@ def run_sampling(ctx, with_model=True):
 
 
 # ---------------------------------------------------------------------------
+# round 5: strata that reach the remaining functions / branches of the anchored classes
+
+def expect_raises(ctx, key, exc_types, fn, rc):
+    """ORACLE for validation branches: a malformed construction / call is rejected with the
+    documented exception (and not accepted, and not with an unrelated error)."""
+    try:
+        fn()
+    except exc_types:
+        return True
+    except Exception as e:  # noqa
+        ctx.violation(key + ' :: rejected with an undocumented exception',
+                      '{}: {}'.format(type(e).__name__, str(e)[:160]), rc)
+        return False
+    ctx.violation(key + ' :: malformed input accepted', 'no exception', rc)
+    return False
+
+
+def run_deform_operators(ctx):
+    """LinDeformFixedTempl.derivative, LinDeformFixedDisp.adjoint (ORACLE: the documented formulas
+    with the textbook interpolant at x +/- v(x); gradient / divergence of the other properties are
+    taken from the real operators), validation branches of both constructors."""
+    import odl
+    from odl.deform import LinDeformFixedTempl, LinDeformFixedDisp, linear_deform
+    rng = ctx.rng
+    for rep in range(3 if ctx.quick else 12):
+        d = 1 + rep % 3
+        sch = ''.join(rng.choice('ln') for _ in range(d))
+        interp = [SCH_NAME[s] for s in sch]
+        dom_spec, _ = gen_space_pair(rng, d, 'float64', False)
+        dom_spec['shape'] = [max(n, 2) for n in dom_spec['shape']]
+        coords = spec_coords(dom_spec)
+        dims = [len(c) for c in coords]
+        size = int(np.prod(dims))
+        gpts = list(itertools.product(*coords))
+        vals = gen_values(rng, size, 'float64', distinct=True)
+        disp = [[Fr(rng.choice([0, 1, -1, 2, -2, 3, -3]), 8) for _ in range(size)] for _ in range(d)]
+        hfield = [[Fr(rng.randint(-4, 4), 2) for _ in range(size)] for _ in range(d)]
+        rc = dict(kind='deform-ops', rep=rep)
+        key = 'deform operators d={} sch={} :: '.format(d, sch)
+        try:
+            dom = make_space(dom_spec)
+            x = dom.element(np.array([float(parse_c(t)[0]) for t in vals]).reshape(dims))
+            tb = dom.tangent_bundle
+            field = tb.element([np.array([float(t) for t in row]).reshape(dims) for row in disp])
+            hel = tb.element([np.array([float(t) for t in row]).reshape(dims) for row in hfield])
+        except Exception as e:  # noqa
+            ctx.violation(key + 'setup raised', '{}: {}'.format(type(e).__name__, str(e)[:120]), rc)
+            continue
+
+        def interp_at(flat_vals, sign):
+            out = []
+            for k, pt in enumerate(gpts):
+                moved = tuple(pt[j] + sign * disp[j][k] for j in range(d))
+                out.append(ref_interp(coords, sch, flat_vals, dims, moved))
+            return out
+        # --- derivative: sum_i linear_deform(grad_i template, v) * h_i
+        ctx.hit('deform-ops/derivative')
+        ctx.case(('deform-derivative', d, sch), None)
+        try:
+            got = LinDeformFixedTempl(x, interp=interp).derivative(field)(hel).asarray().ravel()
+            grad = odl.Gradient(domain=dom, method='central', pad_mode='symmetric')(x)
+            exp = [Fr(0)] * size
+            ok = [True] * size
+            for i in range(d):
+                gv = [(Fr(float(t)), Fr(0)) for t in grad[i].asarray().ravel()]
+                for k, r in enumerate(interp_at(gv, 1)):
+                    if r is None:
+                        ok[k] = False
+                    else:
+                        exp[k] += r[0] * hfield[i][k]
+            scale = max([abs(e) for e in exp] + [Fr(1)])
+            for k in range(size):
+                if ok[k] and abs(Fr(float(got[k])) - exp[k]) > Fr(1, 10 ** 9) * scale:
+                    ctx.violation(key + 'LinDeformFixedTempl.derivative(v)(h) is not sum_i (grad_i I)(x + v(x)) h_i',
+                                  'entry {} expected {} got {}'.format(k, float(exp[k]), float(got[k])), rc)
+                    break
+        except Exception as e:  # noqa
+            ctx.violation(key + 'LinDeformFixedTempl.derivative raised',
+                          '{}: {}'.format(type(e).__name__, str(e)[:160]), rc)
+        # --- adjoint: exp(-div v) * I(x - v(x))
+        ctx.hit('deform-ops/adjoint')
+        ctx.case(('deform-adjoint', d, sch), None)
+        try:
+            got = LinDeformFixedDisp(field, interp=interp).adjoint(x).asarray().ravel()
+            div = odl.Divergence(domain=tb, method='forward', pad_mode='symmetric')(field).asarray().ravel()
+            fv = [parse_c(t) for t in vals]
+            inv = interp_at(fv, -1)
+            for k in range(size):
+                if inv[k] is None:
+                    continue
+                e = float(np.exp(-div[k])) * float(inv[k][0])
+                if abs(float(got[k]) - e) > 1e-9 * max(1.0, abs(e)):
+                    ctx.violation(key + 'LinDeformFixedDisp.adjoint(x) is not exp(-div v) * I(x - v(x))',
+                                  'entry {} expected {} got {}'.format(k, e, float(got[k])), rc)
+                    break
+        except Exception as e:  # noqa
+            ctx.violation(key + 'LinDeformFixedDisp.adjoint raised',
+                          '{}: {}'.format(type(e).__name__, str(e)[:160]), rc)
+    # --- complex template: derivative documented as not implemented
+    sp = odl.uniform_discr(0, 1, 4)
+    spc = odl.uniform_discr(0, 1, 4, dtype=complex)
+    sp5 = odl.uniform_discr(0, 1, 5)
+    tb = sp.tangent_bundle
+    rc = dict(kind='deform-ops')
+    ctx.hit('deform-ops/validation')
+    checks = [
+        ('LinDeformFixedTempl complex template derivative', (NotImplementedError,),
+         lambda: LinDeformFixedTempl(spc.element([1, 2j, 3, 4])).derivative(tb.zero())),
+        ('LinDeformFixedTempl(template=list)', (TypeError,), lambda: LinDeformFixedTempl([0, 1, 0, 0])),
+        ('LinDeformFixedTempl(domain=DiscretizedSpace)', (TypeError,),
+         lambda: LinDeformFixedTempl(sp.one(), domain=sp)),
+        ('LinDeformFixedTempl(domain=non-power product space)', (TypeError,),
+         lambda: LinDeformFixedTempl(sp.one(), domain=odl.ProductSpace(sp, sp5))),
+        ('LinDeformFixedTempl(domain=power of rn)', (TypeError,),
+         lambda: LinDeformFixedTempl(sp.one(), domain=odl.ProductSpace(odl.rn(4), 1))),
+        ('LinDeformFixedTempl(domain with another partition)', (ValueError,),
+         lambda: LinDeformFixedTempl(sp.one(), domain=sp5.tangent_bundle)),
+        ('LinDeformFixedDisp(displacement=list)', (TypeError,), lambda: LinDeformFixedDisp([[0, 0, 0, 0]])),
+        ('LinDeformFixedDisp(displacement in a non-power space)', (ValueError,),
+         lambda: LinDeformFixedDisp(odl.ProductSpace(sp, sp5).zero())),
+        ('LinDeformFixedDisp(displacement in a power of rn)', (ValueError,),
+         lambda: LinDeformFixedDisp(odl.ProductSpace(odl.rn(4), 1).zero())),
+        ('LinDeformFixedDisp(templ_space=rn)', (TypeError,),
+         lambda: LinDeformFixedDisp(tb.zero(), templ_space=odl.rn(4))),
+        ('LinDeformFixedDisp(templ_space with another partition)', (ValueError,),
+         lambda: LinDeformFixedDisp(tb.zero(), templ_space=sp5)),
+    ]
+    for name, exc, fn in checks:
+        ctx.case(('deform-validation', name), None)
+        expect_raises(ctx, 'deform operators validation ' + name, exc, fn, rc)
+
+
+def run_misc_branches(ctx):
+    """validation / option branches of _Interpolator, _func_out_type, is_valid_input_meshgrid,
+    OptionalArgDecorator, DiscretizedSpace.__init__ / element, and the accessors of a sampled
+    element (ORACLE: the callable's values at the grid points, seen through every accessor)."""
+    import odl
+    from odl.discr import discr_utils as du
+    from odl.util import vectorization as vec
+    rng = ctx.rng
+    rc = dict(kind='misc-branches')
+    cv = [np.array([0.0, 1.0, 2.0])]
+    ctx.hit('misc/interpolator-validation')
+    checks = [
+        ('_Interpolator(input_type=unknown)', (ValueError,), lambda: du._Interpolator(cv, [1.0, 2.0, 3.0], 'grid')),
+        ('_Interpolator(2 coordinate vectors, 1-d values)', (ValueError,),
+         lambda: du._Interpolator(cv + cv, [1.0, 2.0, 3.0], 'array')),
+        ('_Interpolator(2-d coordinate vector)', (ValueError,),
+         lambda: du._Interpolator([np.zeros((3, 1))], [1.0, 2.0, 3.0], 'array')),
+        ('_Interpolator(3 nodes, 2 values)', (ValueError,), lambda: du._Interpolator(cv, [1.0, 2.0], 'array')),
+        ('linear_interpolator(3 nodes, 2 values)', (ValueError,), lambda: du.linear_interpolator([1.0, 2.0], cv)(0.5)),
+        ('nearest_interpolator(2 coordinate vectors, 1-d values)', (ValueError,),
+         lambda: du.nearest_interpolator([1.0, 2.0, 3.0], cv + cv)([0.5, 0.5])),
+        ('_Interpolator._evaluate (abstract)', (NotImplementedError,),
+         lambda: du._Interpolator(cv, [1.0, 2.0, 3.0], 'array')._evaluate(None, None)),
+        ('_func_out_type(np.add)', (ValueError,), lambda: du._func_out_type(np.add)),
+        ('_func_out_type(np.modf)', (ValueError,), lambda: du._func_out_type(np.modf)),
+        ('_func_out_type(3)', (TypeError,), lambda: du._func_out_type(3)),
+        ('sampling_function(np.add)', (ValueError,),
+         lambda: du.sampling_function(np.add, odl.IntervalProd(0, 1))),
+    ]
+    for name, exc, fn in checks:
+        ctx.case(('misc-validation', name), None)
+        expect_raises(ctx, 'validation ' + name, exc, fn, rc)
+    # is_valid_input_meshgrid: no ndim / not broadcastable -> not a mesh grid
+    ctx.hit('misc/meshgrid-test')
+    ctx.case(('misc-meshgrid',), None)
+    bad = (np.zeros((2, 1)), np.zeros((1, 3, 1)), np.zeros(5))
+    if vec.is_valid_input_meshgrid((np.zeros(3),), None) is not False or \
+            vec.is_valid_input_meshgrid((np.zeros((2, 1)), np.zeros((3, 4))), 2) is not False or \
+            vec.is_valid_input_meshgrid(tuple(np.meshgrid([0., 1.], [0., 1., 2.], indexing='ij', sparse=True)), 2) \
+            is not True:
+        ctx.violation('is_valid_input_meshgrid :: wrong classification of a tuple input', 'see harness', rc)
+    sf = du.sampling_function(lambda x: x[0] + x[1], odl.IntervalProd([0, 0], [4, 4]))
+    expect_raises(ctx, 'sampling_function call with a non-broadcastable tuple', (TypeError, ValueError),
+                  lambda: sf((np.zeros((2, 1)), np.zeros((3, 4)))), rc)
+    del bad
+    # OptionalArgDecorator._wrapper: the default wrapper hands the function back
+    ctx.hit('misc/optional-arg-decorator')
+    ctx.case(('misc-decorator',), None)
+    f = lambda x: 2 * x[0]  # noqa
+    try:
+        g = vec.OptionalArgDecorator._wrapper(f)
+        el = odl.uniform_discr(0, 2, 4).element(g)
+        if g is not f or flat_tokens(el.asarray(), 'float64') != ['1/2', '3/2', '5/2', '7/2']:
+            ctx.violation('OptionalArgDecorator._wrapper :: default wrapper changes the callable',
+                          str(flat_tokens(el.asarray(), 'float64')), rc)
+    except Exception as e:  # noqa
+        ctx.violation('OptionalArgDecorator._wrapper :: raised', '{}: {}'.format(type(e).__name__, str(e)[:120]), rc)
+    # DiscretizedSpace.__init__ validation and option branches
+    ctx.hit('misc/space-init')
+    part = odl.uniform_partition(0, 1, 4)
+    part4 = odl.uniform_partition([0] * 4, [1] * 4, [2] * 4)
+    for name, exc, fn in [
+            ('DiscretizedSpace(partition=grid)', (TypeError,),
+             lambda: odl.DiscretizedSpace(part.grid, odl.rn(4))),
+            ('DiscretizedSpace(tspace=list)', (TypeError,), lambda: odl.DiscretizedSpace(part, [1, 2, 3, 4])),
+            ('DiscretizedSpace(shape mismatch)', (ValueError,), lambda: odl.DiscretizedSpace(part, odl.rn(5))),
+            ('DiscretizedSpace(unknown keyword)', (ValueError,),
+             lambda: odl.DiscretizedSpace(part, odl.rn(4), colour='red'))]:
+        ctx.case(('misc-validation', name), None)
+        expect_raises(ctx, 'validation ' + name, exc, fn, rc)
+    try:
+        s1 = odl.DiscretizedSpace(part, odl.rn(4), axis_labels=['t'])
+        s4 = odl.DiscretizedSpace(part4, odl.rn((2,) * 4))
+        if s1.axis_labels != ('t',) or s4.axis_labels != ('$x_0$', '$x_1$', '$x_2$', '$x_3$'):
+            ctx.violation('DiscretizedSpace axis_labels :: option not honoured', str((s1.axis_labels, s4.axis_labels)), rc)
+        el4 = s4.element(lambda x: x[0] + 2 * x[3])
+        if flat_tokens(el4.asarray(), 'float64')[:3] != ['3/4', '7/4', '3/4']:
+            ctx.violation('sampling on a 4-d space :: values differ from the callable',
+                          str(flat_tokens(el4.asarray(), 'float64')[:4]), rc)
+    except Exception as e:  # noqa
+        ctx.violation('DiscretizedSpace axis_labels / 4-d sampling :: raised',
+                      '{}: {}'.format(type(e).__name__, str(e)[:120]), rc)
+    # a sampled complex element seen through its accessors
+    for rep in range(2 if ctx.quick else 6):
+        d = 1 + rep % 2
+        shp = [rng.choice([2, 3, 4]) for _ in range(d)]
+        spec = dict(kind='uniform', min=['0'] * d, max=[frs(Fr(n, 2)) for n in shp], shape=shp, dtype='complex128')
+        poly = gen_poly(rng, d, list(range(d)), True)
+        pts = list(itertools.product(*spec_coords(spec)))
+        exp = [peval(poly, pt) for pt in pts]
+        key = 'sampled element accessors d={} :: '.format(d)
+        ctx.hit('misc/element-accessors')
+        ctx.case(('misc-accessors', d, tuple(shp)), None)
+        try:
+            space = make_space(spec)
+            el = space.element(make_callable(dict(ck='oop', d=d, dtype='complex128', poly=poly_json(poly))))
+            k = rng.randrange(len(pts))
+            idx = tuple(int(i) for i in np.unravel_index(k, shp))
+            el_r = el.copy(); el_r.real = el.imag
+            el_i = el.copy(); el_i.imag = el.real
+            same = space.element(el)
+            wrapped = space.element(el.tensor)
+            empty = space.element()
+            set_el = space.element()
+            set_el[:] = el
+            set_re = space.element()
+            set_re[:] = el.real
+            views = {
+                'setitem(element)': (set_el.asarray(), exp),
+                'setitem(real element)': (set_re.asarray(), [(a, Fr(0)) for a, b in exp]),
+                'asarray': (el.asarray(), exp),
+                'real': (el.real.asarray(), [(a, Fr(0)) for a, b in exp]),
+                'imag': (el.imag.asarray(), [(b, Fr(0)) for a, b in exp]),
+                'conj': (el.conj().asarray(), [(a, -b) for a, b in exp]),
+                'conj(out)': (el.conj(out=space.element()).asarray(), [(a, -b) for a, b in exp]),
+                'copy': (el.copy().asarray(), exp),
+                'astype(complex64)': (el.astype('complex64').asarray(), exp),
+                'data': (np.asarray(el.data), exp),
+                'getitem': (np.asarray(el[idx]), [exp[k]]),
+                'real setter': (el_r.asarray(), [(b, b) for a, b in exp]),
+                'imag setter': (el_i.asarray(), [(a, a) for a, b in exp]),
+                'element(element)': (same.asarray(), exp),
+                'element(tensor)': (wrapped.asarray(), exp),
+            }
+            for name, (arr, e) in sorted(views.items()):
+                got = flat_tokens(arr, 'complex128')
+                if got != [ctok(z) for z in e]:
+                    ctx.violation(key + '{} differs from the callable at the grid points'.format(name),
+                                  'expected {} got {}'.format([ctok(z) for z in e], got)[:300], rc)
+            facts = [('dtype', el.dtype == np.dtype('complex128')), ('size', el.size == len(pts)),
+                     ('len', len(el) == shp[0]), ('eq copy', el == el.copy()),
+                     ('ne conj', (el != el.conj()) or all(b == 0 for a, b in exp)),
+                     ('element(element) is the same object', same is el),
+                     ('copy owns its memory', not np.shares_memory(el.copy().asarray(), el.asarray())),
+                     ('element() has the space shape', empty.shape == tuple(shp)),
+                     ('cell_sides', [Fr(float(t)) for t in el.cell_sides] == [Fr(1, 2)] * d),
+                     ('cell_volume', Fr(float(el.cell_volume)) == Fr(1, 2 ** d)),
+                     ('space.cell_sides', [Fr(float(t)) for t in space.cell_sides] == [Fr(1, 2)] * d),
+                     ('space.cell_volume', Fr(float(space.cell_volume)) == Fr(1, 2 ** d)),
+                     ('min_pt', [Fr(float(t)) for t in space.min_pt] == [Fr(0)] * d),
+                     ('max_pt', [Fr(float(t)) for t in space.max_pt] == [Fr(n, 2) for n in shp]),
+                     ('is_uniform', space.is_uniform and all(space.is_uniform_byaxis))]
+            for name, okf in facts:
+                if not okf:
+                    ctx.violation(key + name + ' wrong for the sampled element', 'see harness', rc)
+        except Exception as e:  # noqa
+            ctx.violation(key + 'raised', '{}: {}'.format(type(e).__name__, str(e)[:160]), rc)
+
+
+# ---------------------------------------------------------------------------
 
 MODEL_BRANCHES = ['axis/{}/{}'.format(s_, b) for s_ in 'ln' for b in ('lo', 'hi', 'node', 'tie', 'in<', 'in>')] + \
     ['conv/{}/{}'.format(a, c) for a in ('nearest', 'linear', 'peraxis') for c in ('point', 'array', 'mesh')] + \
@@ -2631,6 +2939,11 @@ MODEL_BRANCHES = ['axis/{}/{}'.format(s_, b) for s_ in 'ln' for b in ('lo', 'hi'
     ['e2e/resample/' + b for b in ('dom-uniform', 'dom-nonuniform', 'axis-same', 'axis-coarsen', 'axis-refine',
                                    'all-inside-hull', 'point-outside-hull')] + \
     ['e2e/deform/' + b for b in ('zero-disp', 'moved', 'all-inside-hull', 'point-outside-hull')] + \
+    ['conv/resampling/mesh+inverse', 'conv/resampling/mesh+adjoint', 'conv/deform/array+dispinverse',
+     'conv/deform/array+templspace', 'conv/deform/array+domain', 'conv/deform/array+fixedtempl+out',
+     'deform-ops/derivative', 'deform-ops/adjoint', 'deform-ops/validation', 'misc/interpolator-validation',
+     'misc/meshgrid-test', 'misc/optional-arg-decorator', 'misc/space-init', 'misc/element-accessors',
+     'sampling/vector/tuple-mesh+out', 'sampling/vector/tuple-array+out'] + \
     ['e2e/theorem/' + b for b in ('resampling_same_grid_identity', 'resampling_affine_exact', 'resampling_nearest_refine',
                                   'deform_zero_identity', 'deform_affine_exact')]
 
@@ -2660,6 +2973,8 @@ def run(ctx):
     run_interp(ctx, interp_configs(ctx))
     run_ops(ctx, op_configs(ctx))
     run_grid_general(ctx)
+    run_deform_operators(ctx)
+    run_misc_branches(ctx)
     run_dtype_table(ctx)
     run_dispatch(ctx)
     run_input_classes(ctx)
@@ -2684,6 +2999,8 @@ def search(ctx, broken):
             affine_check(ctx, case)
         run_ops(ctx, op_configs(ctx), with_model=False)
         run_grid_general(ctx, with_model=False)
+        run_deform_operators(ctx)
+        run_misc_branches(ctx)
         run_dtype_table(ctx, with_model=False)
         run_dispatch(ctx, with_model=False)
         run_input_classes(ctx, with_model=False)
@@ -2711,6 +3028,10 @@ def replay(ctx, case):
         run_sampling_case(ctx, c)
     elif kind == 'grid-general':
         run_grid_general(ctx, with_model=False)
+    elif kind == 'deform-ops':
+        run_deform_operators(ctx)
+    elif kind == 'misc-branches':
+        run_misc_branches(ctx)
     elif kind == 'dtype':
         run_dtype_table(ctx, with_model=False)
     elif kind == 'vector':
